@@ -26,10 +26,13 @@ ALL_OPS = ["add", "subtract", "remainder", "fmod", "maximum", "minimum", "fmax",
 
 # TLC evaluates the recursive operators of Arith.tla on 28-atom unit vectors: give its worker threads a deeper stack
 JVM = {"JAVA_TOOL_OPTIONS": "-Xss16m"}
+REG_OPS = ["add", "subtract", "remainder", "fmod", "maximum", "minimum", "hypot", "less", "greater_equal", "equal", "not_equal", "multiply", "divide", "floor_divide", "divmod_r", "dot", "sqrt", "square"]
+DT_OPS = ["add", "subtract", "remainder", "fmod", "maximum", "minimum", "copysign", "less", "greater_equal", "equal", "not_equal", "negative"]
+DTS = ["f8", "c16", "c8", "f4", "i8", "i4"]
 MAG_OPS = ["add", "subtract", "remainder", "fmod", "maximum", "minimum", "fmax", "fmin", "hypot", "copysign", "less", "less_equal", "greater", "greater_equal", "equal", "not_equal", "floor_divide", "divmod_r"]
 
 
-def _cfg(ck, name, maxlen, exportlen, leaves, yshapes, valsets, reexall, ops=None, pairs=(), xshapes=("v",), classpairs=False):
+def _cfg(ck, name, maxlen, exportlen, leaves, yshapes, valsets, reexall, ops=None, pairs=(), xshapes=("v",), classpairs=False, regpairs=(11,), reexreg=False, dtx=("f8",), dty=("f8",)):
     ops = ops or ALL_OPS
     txt = "CONSTANTS\n"
     txt += f"  MaxLen = {maxlen}\n  ExportLen = {exportlen}\n"
@@ -41,6 +44,10 @@ def _cfg(ck, name, maxlen, exportlen, leaves, yshapes, valsets, reexall, ops=Non
     txt += "  OpSet = {" + ", ".join(f'"{o}"' for o in ops) + "}\n"
     txt += "  InitPairs = {" + ", ".join(str(100 * a + b) for a, b in pairs) + "}\n"
     txt += f"  ClassPairs = {'TRUE' if classpairs else 'FALSE'}\n"
+    txt += "  RegPairs = {" + ", ".join(str(r) for r in regpairs) + "}\n"
+    txt += f"  ReexReg = {'TRUE' if reexreg else 'FALSE'}\n"
+    txt += "  DTX = {" + ", ".join(f'"{d}"' for d in dtx) + "}\n"
+    txt += "  DTY = {" + ", ".join(f'"{d}"' for d in dty) + "}\n"
     txt += "INIT Init\nNEXT Next\nINVARIANT Export\nCHECK_DEADLOCK FALSE\n"
     open(ck.spec + f"/{name}.cfg", "w").write(txt)
     return name
@@ -59,8 +66,8 @@ def _rel(e):
         return "unary"
     if e["A"]["k"] == "n" or e["B"]["k"] == "n":
         return "bare_operand"
-    if e["A"]["u"] == e["B"]["u"]:
-        return "same_unit"
+    if e["A"]["u"] == e["B"]["u"] and e["A"].get("sv") == e["B"].get("sv"):
+        return "same_unit"  # (the same symbols bound to registries that size them differently are different units)
     return "different_unit"
 
 
@@ -234,6 +241,12 @@ def run(ck):
         ("len1o", "length 1, angle units with a zero point (trig)", dict(maxlen=1, exportlen=1, leaves=[18, 19, 20, 38, 39], yshapes=["v"], valsets=[1, 2], reexall=ck.q(False, True), ops=["sin", "cos", "tan"]), False),
         # units whose quotient / product cancels only partly pair by pair (half-integer powers, a compound atom)
         ("len1p", "length 1, partly cancellable unit quotients", dict(maxlen=1, exportlen=1, leaves=[8, 40, 41, 42, 43, 44, 45, 46], yshapes=ck.q(["v"], ["v", "s"]), valsets=ck.q([1], [1, 2]), reexall=False, ops=PART_OPS, pairs=[(40, 41), (41, 40), (40, 42), (42, 40), (41, 42), (40, 40), (45, 46), (46, 45), (44, 8), (8, 44), (45, 8), (46, 44), (40, 43)]), False),
+        # registry dimension: the two leaves are bound to different registries that give the same symbols different sizes
+        # (and to unyt's default registry); run B writes each leaf in the other custom registry
+        ("len1r", "length 1, leaves bound to different registries", dict(maxlen=1, exportlen=1, leaves=[1, 2, 4, 8, 12], yshapes=ck.q(["v"], ["v", "s"]), valsets=ck.q([1], [1, 4]), reexall=False, ops=REG_OPS, regpairs=ck.q([12, 21, 13, 31], [12, 21, 22, 13, 31, 23, 32]), reexreg=True, pairs=ck.q([(1, 1), (1, 2), (2, 1), (4, 1), (1, 4), (8, 4), (1, 8), (1, 12), (12, 1), (2, 12), (8, 8)], [])), False),
+        # dtype dimension: complex (non-zero imaginary parts), float32 and integer leaves in either operand position, on
+        # the power-of-two units (exact in every dtype)
+        ("len1d", "length 1, leaf dtypes (complex, float32, integers)", dict(maxlen=1, exportlen=1, leaves=[1, 2, 4], yshapes=["v"], valsets=ck.q([4], [2, 4]), reexall=False, ops=DT_OPS, pairs=[(1, 2), (2, 1), (1, 1)], dtx=DTS, dty=DTS), False),
         # length 2 (exhaustive chains) on a smaller alphabet: compound and cancelled units feed the second step
         ("len2", "programs of length 2 (exhaustive)", dict(maxlen=2, exportlen=2, leaves=leaves2, yshapes=["v"], valsets=[1], reexall=False, ops=ops2, pairs=ck.q([(1, 2)], [(1, 2), (2, 1), (2, 6), (1, 1)])), False),
         # beyond the bound: simulated longer programs
@@ -263,7 +276,7 @@ def run(ck):
             for c in cases:
                 fam.setdefault(json.dumps([c["cfg"], c["steps"][:-1]], sort_keys=True), []).append(c)
             cases = [c for k in sorted(fam) for c in rnd.sample(fam[k], min(40, len(fam[k])))]
-        minimum = {"len1": 500, "len1m": 200, "len1o": 20, "len1p": 50}.get(key, 0)
+        minimum = {"len1": 500, "len1m": 200, "len1o": 20, "len1p": 50, "len1r": 100, "len1d": 100}.get(key, 0)
         if len(cases) < minimum:
             raise MachineryFailure(f"too few cases exported by instance {key}: {len(cases)}")
         batches.append((key, cases))
